@@ -55,12 +55,19 @@ def generate(rng, tier, index):
     recipe["lik"] = "gaussian" if (fam != "default" or rng.random() < 0.75) else rng.choice(["fixed", "fixed_learn"])
     recipe.pop("active_dims", None)
     if fam == "default":
-        recipe["batch"] = rng.choice([[], [], [2]])
+        recipe["batch"] = rng.choice([[], [], [2], [2]])
+        if recipe["batch"] and recipe["lik"] == "gaussian" and rng.random() < 0.4:
+            recipe["shared_data"] = True  # batched hyper-parameters, one un-batched data set
+            recipe["batch"] = rng.choice([[2], [3]])
     elif fam == "multitask":
         recipe["batch"] = rng.choice([[], [], [2]])  # batched Kronecker multitask models too
     else:
         recipe["batch"] = []
     recipe["n"] = rng.randint(3, 7) if fam in ("default", "rff") else (rng.randint(5, 8) if approx else rng.randint(3, 4))
+    if recipe.get("shared_data"):
+        # n == b makes the likelihood's noise-shape inference ambiguous (the per-batch noise is applied along the data axis
+        # - under every policy, also 'ignore': a pure-function defect outside C16)
+        recipe["n"] = max(recipe["n"], 4)
     max_len = rng.randint(3, 10) if not thorough else rng.randint(4, 30)
     # iterative regime with small targets: the mean-cache solve runs through CG, whose stopping rule is relative to the norm
     # of the right-hand side - whatever 'fill' puts into the missing entries must not drown the observed ones
